@@ -152,7 +152,7 @@ def mutate(g, defn):
     nm = g.pick(names)
     s = m["States"][nm]
     op = g.pick(["drop", "drop", "wrong_type", "wrong_type", "retarget", "retarget", "retag", "dup_name", "both", "end_false", "unreachable", "extra_field",
-                 "machine_field", "empty_states", "choice_shape", "rename", "empty_member", "empty_member"])
+                 "machine_field", "empty_states", "choice_shape", "rename", "empty_member", "empty_member", "non_object_member", "non_object_member"])
     label = op
     if op == "drop":
         fields = [f for f in s if f != "Comment"]
@@ -263,6 +263,18 @@ def mutate(g, defn):
         else:
             m["States"][nm] = {}
             label = "empty_member:state"
+    elif op == "non_object_member":
+        # an object (state, Branch, rule, Retrier, Catcher, Iterator) is replaced by a value that is no object; transitions keep pointing at it
+        cands = [(s, f, i) for f in ("Branches", "Choices", "Retry", "Catch") if isinstance(s.get(f), list) for i in range(len(s[f]))]
+        cands += [(s, f, None) for f in ("Iterator", "ItemProcessor", "Parameters", "ResultSelector") if isinstance(s.get(f), dict)]
+        cands += [(m["States"], nm, None)] * 3
+        holder, f, i = g.pick(cands)
+        v = g.pick([x for x in WRONG if not isinstance(x, dict)] + ["Parallel", "Pass"])
+        if i is None:
+            holder[f] = v
+        else:
+            holder[f][i] = v
+        label = "non_object_member:%s=%s" % ("state" if holder is m["States"] else f, type(v).__name__)
     return d, label
 
 
@@ -552,6 +564,8 @@ def main(tier, seed, replay=None):
         "'fails at run time for being an illegal state machine' = an accepted definition that cannot be started, raises inside the engine, never ends, or fails with States.Runtime / an error other than its own Fail state's",
         "a definition so broken that no execution is ever announced (the start event is dropped and acknowledged) is accepted by the isolation clause; one that was announced RUNNING must end",
         "an exception escaping an engine callback counts as a violation of 'the engine keeps serving' (with the blocking transport it ends the process)",
+        "coverage-guided family (atheris, structure-aware JSON mutator seeded with three machines that use every state type): totality for every input; for inputs the validator accepts only "
+        "'cannot start', 'exception escapes the engine', 'Illegal State Machine' and 'terminal but unacknowledged' are asserted, because a fuzz-made machine may loop, wait or mis-address data legitimately",
     ]
     if replay:
         with open(replay) as fp:
@@ -563,8 +577,74 @@ def main(tier, seed, replay=None):
         camp.write_evidence = False
         return camp.finish()
     camp.run_witnesses(replay_case)
+    from .. import fuzz
     if tier == "thorough":
         run_shards(camp, __name__, "shard", 16, examples=2500)
+        fuzz.campaign(camp, __name__, runs=40000, shards=16)
     else:
         run_shards(camp, __name__, "shard", 8, examples=120)
+        if fuzz.available():
+            fuzz.campaign(camp, __name__, runs=800, shards=8)
+        else:
+            camp.extra["fuzz"] = "atheris not importable: the coverage-guided family was skipped in the quick tier (the thorough tier requires it)"
     return camp.finish()
+
+
+# ------------------------------------------------------------ coverage-guided family (thorough tier)
+FUZZ_SEEDS = [
+    {"Comment": "c", "StartAt": "A", "TimeoutSeconds": 60, "Version": "1.0", "States": {
+        "A": {"Type": "Pass", "Result": {"a": 1}, "ResultPath": "$.r", "InputPath": "$", "OutputPath": "$", "Parameters": {"x.$": "$.flag", "y": [1, {"z.$": "States.Format('{}', $.flag)"}]}, "Next": "C"},
+        "C": {"Type": "Choice", "Choices": [
+            {"Variable": "$.flag", "BooleanEquals": True, "Next": "T"},
+            {"And": [{"Variable": "$.a", "NumericGreaterThan": 1}, {"Not": {"Variable": "$.s", "StringMatches": "a*"}}, {"Or": [{"Variable": "$.t", "TimestampLessThanPath": "$.u"}, {"Variable": "$.t", "IsPresent": True}]}], "Next": "W"}],
+            "Default": "F"},
+        "T": {"Type": "Task", "Resource": FN, "TimeoutSeconds": 5, "HeartbeatSeconds": 2, "ResultSelector": {"v.$": "$"}, "Retry": [{"ErrorEquals": ["States.Timeout", "E"], "IntervalSeconds": 1, "MaxAttempts": 2, "BackoffRate": 1.5}],
+              "Catch": [{"ErrorEquals": ["States.ALL"], "ResultPath": "$.e", "Next": "F"}], "Next": "W"},
+        "W": {"Type": "Wait", "Seconds": 1, "Next": "S"},
+        "S": {"Type": "Succeed"},
+        "F": {"Type": "Fail", "Error": "E", "Cause": "c"}}},
+    {"StartAt": "P", "States": {
+        "P": {"Type": "Parallel", "Branches": [{"StartAt": "A", "States": {"A": {"Type": "Pass", "End": True}}}, {"StartAt": "B", "States": {"B": {"Type": "Wait", "Timestamp": "2020-01-01T00:00:00Z", "End": True}}}],
+              "ResultPath": "$.p", "Next": "M"},
+        "M": {"Type": "Map", "ItemsPath": "$.items", "MaxConcurrency": 2, "ItemSelector": {"i.$": "$$.Map.Item.Value"}, "Iterator": {"StartAt": "I", "States": {"I": {"Type": "Pass", "End": True}}},
+              "Retry": [{"ErrorEquals": ["States.ALL"]}], "Next": "W2"},
+        "W2": {"Type": "Wait", "SecondsPath": "$.n", "Next": "W3"},
+        "W3": {"Type": "Wait", "TimestampPath": "$.t", "End": True}}},
+    {"StartAt": "M", "States": {"M": {"Type": "Map", "ItemProcessor": {"ProcessorConfig": {"Mode": "INLINE"}, "StartAt": "I", "States": {"I": {"Type": "Task", "Resource": BOOM, "TimeoutSecondsPath": "$.n", "End": True}}},
+                                      "Parameters": {"a": 1}, "ToleratedFailurePercentage": 0, "End": True}}},
+]
+FUZZ_DICT = ["StartAt", "States", "Type", "Next", "End", "true", "false", "null", "Pass", "Task", "Choice", "Wait", "Succeed", "Fail", "Parallel", "Map", "Choices", "Default", "Variable",
+             "And", "Or", "Not", "Branches", "Iterator", "ItemProcessor", "ProcessorConfig", "Mode", "INLINE", "DISTRIBUTED", "ItemReader", "ItemBatcher", "ResultWriter", "ItemsPath", "ItemSelector",
+             "MaxConcurrency", "MaxConcurrencyPath", "ToleratedFailureCount", "ToleratedFailurePercentage", "Resource", "Parameters", "ResultSelector", "ResultPath", "InputPath", "OutputPath",
+             "Result", "Retry", "Catch", "ErrorEquals", "IntervalSeconds", "MaxAttempts", "BackoffRate", "MaxDelaySeconds", "JitterStrategy", "FULL", "NONE", "TimeoutSeconds", "TimeoutSecondsPath",
+             "HeartbeatSeconds", "HeartbeatSecondsPath", "Seconds", "SecondsPath", "Timestamp", "TimestampPath", "Error", "Cause", "ErrorPath", "CausePath", "Comment", "Version", "Credentials",
+             "States.ALL", "States.Timeout", "StringEquals", "StringEqualsPath", "StringMatches", "NumericEquals", "NumericLessThanPath", "BooleanEquals", "BooleanEqualsPath", "TimestampEquals",
+             "TimestampGreaterThanEqualsPath", "IsPresent", "IsNull", "IsNumeric", "IsString", "IsBoolean", "IsTimestamp", "$.a", "$", "$$.Map.Item.Value", ".$", "\"\"", "{}", "[]", "[{}]", "1e9", "-1", "0.5",
+             "2020-01-01T00:00:00Z", "arn:aws:lambda:us-east-1:123456789012:function:f", "States.Format('{}', $.a)", "QueryLanguage", "JSONPath", "JSONata", "Assign", "Output", "Arguments", "Items"]
+
+
+def fuzz_setup():
+    lint()
+    from .. import world as W
+    W.install()
+    return {"dict": FUZZ_DICT, "corpus": [json.dumps(s) for s in FUZZ_SEEDS] + [json.dumps(s, indent=1) for s in FUZZ_SEEDS[:1]], "max_len": 4096, "json_mutator": True, "leaves": WRONG + ["$.flag", "$.items", FN, BOOM, "States.ALL"]}
+
+
+def fuzz_one(data):
+    try:
+        value = json.loads(data.decode("utf-8"))
+    except (ValueError, RecursionError):
+        return None
+    problems, bad = validate(value)
+    fails = [bad] if bad else []
+    classes = ["fuzz-family-A-totality", "fuzz-top-" + type(value).__name__]
+    nontrivial = isinstance(value, dict) and isinstance(value.get("States"), dict) and len(value["States"]) > 0
+    if problems is not None:
+        classes.append("fuzz-validator-accepts" if not problems else "fuzz-validator-rejects")
+        if not problems:
+            f2, how = run_accepted(value)
+            # a fuzz-made machine may loop or wait legitimately (no acyclicity or path discipline here): only the verdicts that cannot be the machine's own doing count
+            running = any(b.startswith("accepted-machine-never-ends") for b, _ in f2)
+            fails += [(b + ":fuzz", d) for b, d in f2 if not b.startswith("accepted-machine-never-ends") and not b.startswith("accepted-machine-fails-at-run-time:exception") and not (running and b.startswith("accepted-machine-leaves-unacked"))]
+            classes.append("fuzz-family-B-agreement:" + how)
+    return {"case": {"family": "M", "value": value, "labels": ["fuzz"]}, "classes": classes, "nontrivial": nontrivial, "fails": fails}
